@@ -16,8 +16,12 @@ Model of the Go port (`/repo/proj`), function by function, generic over the numb
   the functions below only pass them what the closure reads from `*SR` and from its constructor.
 * Hand models (tied by the correspondence run): `projString.go`, `deriveConstants.go`, `getDatum`,
   `compare_datums`, `geocentric_to_geodetic` (its `for {}` loop), `datum_transform.go`, the closure of
-  `transform.go`, the constructor bodies (`init`), and the inverse closures of `TMerc` and `Krovak`
-  (loops with an integer counter are outside the translator's subset).
+  `transform.go`, and the inverse closures of `TMerc` and `Krovak` (loops with an integer counter are
+  outside the translator's subset).
+* The constructor BODIES (`Merc LCC AEA EqdC TMerc UTM Krovak` up to their closures) are
+  `Gen.Go.<Ctor>_init` (regenerated): functions of the `*SR` fields they read, returning the locals
+  the closures capture and the final values of the fields they write; `<p>Init` below only moves
+  those between the record and the generated function.
 
 Go specifics that are kept: a float field that was never set is `NaN` (`NewSR`): `none` here, and
 `math.IsNaN(f)` is `gNaN`; errors are values (`Except String`); the two-hop route through WGS84
@@ -30,10 +34,12 @@ open GeomV.C09.Gen.Go
 
 variable {α : Type} [RTrans α]
 
-/-- `math.IsNaN` of a field that starts as NaN -/
+/-- `math.IsNaN` of a field that starts as NaN (the generated code calls it `Gen.Go.optNaN`) -/
 def gNaN (o : Option α) : Bool := match o with | none => true | some v => isNaN v
-/-- the field's value in arithmetic -/
+/-- the field's value in arithmetic (`Gen.Go.optNum`) -/
 def gnum (o : Option α) : α := o.getD nan
+theorem optNaN_eq (o : Option α) : optNaN o = gNaN o := rfl
+theorem optNum_eq (o : Option α) : optNum o = gnum o := rfl
 
 structure Datum (α : Type) where
   datum_type : Nat
@@ -380,20 +386,15 @@ def Consts.nanC : Consts α :=
 
 def aS (s : SR α) : α := gnum s.a
 
-/-- `Merc` -/
-def mercInit (this : SR α) : SR α × Consts α :=
-  let this := if gNaN this.long0 then { this with long0 := some 0 } else this
-  let con := gnum this.b / gnum this.a
-  let Es := 1 - con * con
-  let this := if gNaN this.x0 then { this with x0 := some 0 } else this
-  let this := if gNaN this.y0 then { this with y0 := some 0 } else this
-  let E := sqrt Es
-  let K0 : α :=
-    if !gNaN this.latTS then
-      if this.sphere then cos (gnum this.latTS) else msfnz E (sin (gnum this.latTS)) (cos (gnum this.latTS))
-    else if gNaN this.k0 then (if !gNaN this.k then gnum this.k else 1)
-    else gnum this.k0
-  (this, { (Consts.nanC : Consts α) with k0 := K0 })
+/-- `Merc`: the constructor body is the REGENERATED `Gen.Go.Merc_init`; here only the plumbing between
+the `*SR` record and its parameters/results -/
+def mercInit (this : SR α) : Except String (SR α × Consts α) :=
+  match Merc_init (this_A := gnum this.a) (this_B := gnum this.b) (this_K := this.k) (this_K0 := this.k0)
+      (this_LatTS := this.latTS) (this_Long0 := this.long0) (this_X0 := this.x0) (this_Y0 := this.y0)
+      (this_sphere := this.sphere) with
+  | .ok (K0, long0, x0, y0) =>
+    .ok ({ this with long0 := long0, x0 := x0, y0 := y0 }, { (Consts.nanC : Consts α) with k0 := optNum K0 })
+  | .error e => .error e
 
 /-- forward closure of `Merc`: the REGENERATED `Gen.Go.Merc_forward` applied to what the closure reads -/
 def mercFwd (this : SR α) (c : Consts α) (lon lat : α) : Except String (α × α) :=
@@ -407,33 +408,14 @@ def mercInv (this : SR α) (c : Consts α) (x y : α) : Except String (α × α)
     (this_X0 := gnum this.x0) (this_Y0 := gnum this.y0) (this_sphere := this.sphere) x y
 
 
-/-- `LCC` -/
+/-- `LCC` (constructor body regenerated: `Gen.Go.LCC_init`) -/
 def lccInit (this : SR α) : Except String (SR α × Consts α) :=
-  let this := if gNaN this.lat2 then { this with lat2 := this.lat1 } else this
-  let this := if gNaN this.k0 then { this with k0 := some 1 } else this
-  let this := if gNaN this.x0 then { this with x0 := some 0 } else this
-  let this := if gNaN this.y0 then { this with y0 := some 0 } else this
-  if lt (abs (gnum this.lat1 + gnum this.lat2)) c_epsln then
-    .error "proj.LCC: standard Parallels cannot be equal and on opposite sides of the equator"
-  else
-    let temp := gnum this.b / gnum this.a
-    let E := sqrt (1 - temp * temp)
-    let lat1 := gnum this.lat1
-    let lat2 := gnum this.lat2
-    let sin1 := sin lat1
-    let cos1 := cos lat1
-    let ms1 := msfnz E sin1 cos1
-    let ts1 := tsfnz E lat1 sin1
-    let sin2 := sin lat2
-    let cos2 := cos lat2
-    let ms2 := msfnz E sin2 cos2
-    let ts2 := tsfnz E lat2 sin2
-    let ts0 := tsfnz E (gnum this.lat0) (sin (gnum this.lat0))
-    let NS := if gt (abs (lat1 - lat2)) c_epsln then log (ms1 / ms2) / log (ts1 / ts2) else sin1
-    let NS := if isNaN NS then sin1 else NS
-    let F0 := ms1 / (NS * pow ts1 NS)
-    let RH := aS this * F0 * pow ts0 NS
-    .ok (this, { (Consts.nanC : Consts α) with e := E, ns := NS, f0 := F0, rh := RH })
+  match LCC_init (this_A := gnum this.a) (this_B := gnum this.b) (this_Lat0 := gnum this.lat0) (this_K0 := this.k0)
+      (this_Lat1 := this.lat1) (this_Lat2 := this.lat2) (this_X0 := this.x0) (this_Y0 := this.y0) with
+  | .ok (E, F0, NS, RH, k0, lat2, x0, y0) =>
+    .ok ({ this with k0 := k0, lat2 := lat2, x0 := x0, y0 := y0 },
+         { (Consts.nanC : Consts α) with e := E, ns := NS, f0 := F0, rh := RH })
+  | .error e => .error e
 
 /-- forward closure of `LCC` (regenerated) -/
 def lccFwd (this : SR α) (c : Consts α) (lon lat : α) : Except String (α × α) :=
@@ -447,29 +429,13 @@ def lccInv (this : SR α) (c : Consts α) (x y : α) : Except String (α × α) 
     (this_Long0 := gnum this.long0) (this_X0 := gnum this.x0) (this_Y0 := gnum this.y0) x y
 
 
-/-- `AEA` (the error is set but the constants are still computed; `Transformers` returns the error) -/
+/-- `AEA` (constructor body regenerated: `Gen.Go.AEA_init`; the error is set but the constants are still
+computed, `Transformers` returns the error) -/
 def aeaInit (this : SR α) : Except String (SR α × Consts α) :=
-  if lt (abs (gnum this.lat1 + gnum this.lat2)) c_epsln then
-    .error "proj.AEA: standard Parallels cannot be equal and on opposite sides of the equator"
-  else
-    let temp := gnum this.b / gnum this.a
-    let es := 1 - pow temp 2
-    let e3 := sqrt es
-    let sin_po := sin (gnum this.lat1)
-    let cos_po := cos (gnum this.lat1)
-    let con := sin_po
-    let ms1 := msfnz e3 sin_po cos_po
-    let qs1 := qsfnz e3 sin_po
-    let sin_po := sin (gnum this.lat2)
-    let cos_po := cos (gnum this.lat2)
-    let ms2 := msfnz e3 sin_po cos_po
-    let qs2 := qsfnz e3 sin_po
-    let sin_po := sin (gnum this.lat0)
-    let qs0 := qsfnz e3 sin_po
-    let ns0 := if gt (abs (gnum this.lat1 - gnum this.lat2)) c_epsln then (ms1 * ms1 - ms2 * ms2) / (qs2 - qs1) else con
-    let c := ms1 * ms1 + ns0 * qs1
-    let rh := aS this * sqrt (c - ns0 * qs0) / ns0
-    .ok (this, { (Consts.nanC : Consts α) with e := e3, ns := ns0, c := c, rh := rh })
+  match AEA_init (this_A := gnum this.a) (this_B := gnum this.b) (this_Lat0 := gnum this.lat0)
+      (this_Lat1 := gnum this.lat1) (this_Lat2 := gnum this.lat2) with
+  | .ok (c, e3, ns0, rh) => .ok (this, { (Consts.nanC : Consts α) with e := e3, ns := ns0, c := c, rh := rh })
+  | .error e => .error e
 
 /-- forward closure of `AEA` (regenerated) -/
 def aeaFwd (this : SR α) (c : Consts α) (lon lat : α) : Except String (α × α) :=
@@ -483,38 +449,14 @@ def aeaInv (this : SR α) (c : Consts α) (x y : α) : Except String (α × α) 
     (this_X0 := gnum this.x0) (this_Y0 := gnum this.y0) (this_sphere := this.sphere) x y
 
 
-/-- `EqdC` (writes `Es`, `E`) -/
+/-- `EqdC` (constructor body regenerated: `Gen.Go.EqdC_init`; writes `Lat2`, `Es`, `E`) -/
 def eqdcInit (this : SR α) : Except String (SR α × Consts α) :=
-  if lt (abs (gnum this.lat1 + gnum this.lat2)) c_epsln then
-    .error "proj: Equidistant Conic parallels cannot be equal and on opposite sides of the equator"
-  else
-    let this := if gNaN this.lat2 then { this with lat2 := this.lat1 } else this
-    let temp := gnum this.b / gnum this.a
-    let es := 1 - pow temp 2
-    let e := sqrt es
-    let this := { this with es := es, e := e }
-    let e0 := e0fn es
-    let e1 := e1fn es
-    let e2 := e2fn es
-    let e3 := e3fn es
-    let lat1 := gnum this.lat1
-    let lat2 := gnum this.lat2
-    let sinphi := sin lat1
-    let cosphi := cos lat1
-    let ms1 := msfnz e sinphi cosphi
-    let ml1 := mlfn e0 e1 e2 e3 lat1
-    let ns : α :=
-      if lt (abs (lat1 - lat2)) c_epsln then sinphi
-      else
-        let sinphi := sin lat2
-        let cosphi := cos lat2
-        let ms2 := msfnz e sinphi cosphi
-        let ml2 := mlfn e0 e1 e2 e3 lat2
-        (ms1 - ms2) / (ml2 - ml1)
-    let g := ml1 + ms1 / ns
-    let ml0 := mlfn e0 e1 e2 e3 (gnum this.lat0)
-    let rh := aS this * (g - ml0)
-    .ok (this, { (Consts.nanC : Consts α) with e := e, e0 := e0, e1 := e1, e2 := e2, e3 := e3, ns := ns, g := g, ml0 := ml0, rh := rh })
+  match EqdC_init (this_A := gnum this.a) (this_B := gnum this.b) (this_Lat0 := gnum this.lat0)
+      (this_Lat1 := this.lat1) (this_Lat2 := this.lat2) with
+  | .ok (e0, e1, e2, e3, g, ns, rh, E, Es, lat2) =>
+    .ok ({ this with lat2 := lat2, es := Es, e := E },
+         { (Consts.nanC : Consts α) with e := E, e0 := e0, e1 := e1, e2 := e2, e3 := e3, ns := ns, g := g, rh := rh })
+  | .error e => .error e
 
 /-- forward closure of `EqdC` (regenerated) -/
 def eqdcFwd (this : SR α) (c : Consts α) (lon lat : α) : Except String (α × α) :=
@@ -528,13 +470,12 @@ def eqdcInv (this : SR α) (c : Consts α) (x y : α) : Except String (α × α)
     (this_Long0 := gnum this.long0) (this_X0 := gnum this.x0) (this_Y0 := gnum this.y0) (this_sphere := this.sphere) x y
 
 
-/-- `TMerc` -/
-def tmercInit (this : SR α) : SR α × Consts α :=
-  let e0 := e0fn this.es
-  let e1 := e1fn this.es
-  let e2 := e2fn this.es
-  let e3 := e3fn this.es
-  (this, { (Consts.nanC : Consts α) with e0 := e0, e1 := e1, e2 := e2, e3 := e3, ml0 := aS this * mlfn e0 e1 e2 e3 (gnum this.lat0) })
+/-- `TMerc` (constructor body regenerated: `Gen.Go.TMerc_init`) -/
+def tmercInit (this : SR α) : Except String (SR α × Consts α) :=
+  match TMerc_init (this_A := gnum this.a) (this_Es := this.es) (this_Lat0 := gnum this.lat0) with
+  | .ok (e0, e1, e2, e3, ml0) =>
+    .ok (this, { (Consts.nanC : Consts α) with e0 := e0, e1 := e1, e2 := e2, e3 := e3, ml0 := ml0 })
+  | .error e => .error e
 
 /-- forward closure of `TMerc` (regenerated) -/
 def tmercFwd (this : SR α) (c : Consts α) (lon lat : α) : Except String (α × α) :=
@@ -590,42 +531,24 @@ def tmercInv (this : SR α) (c : Consts α) (x y : α) : Except String (α × α
     else
       pure (gnum this.long0, halfPi * sign y)
 
-/-- `UTM` -/
+/-- `UTM` (body regenerated: `Gen.Go.UTM_init`), then `TMerc(this)` -/
 def utmInit (this : SR α) : Except String (SR α × Consts α) :=
-  if gNaN this.zone then .error "in proj.UTM: zone is not specified"
-  else
-    let this := { this with lat0 := some 0,
-                            long0 := some (((6 * abs (gnum this.zone)) - 183) * c_deg2rad),
-                            x0 := some 500000,
-                            y0 := some (if this.utmSouth then 10000000 else 0),
-                            k0 := some 0.9996 }
-    .ok (tmercInit this)
+  match UTM_init (this_Zone := this.zone) (this_UTMSouth := this.utmSouth) with
+  | .ok (k0, lat0, long0, x0, y0) =>
+    tmercInit { this with lat0 := some lat0, long0 := some long0, x0 := some x0, y0 := some y0, k0 := some k0 }
+  | .error e => .error e
 
 def S45 : α := 0.785398163397448
 def S0 : α := 1.37008346281555
 
-/-- `Krovak` (writes `A`, `Es`, `E`, and defaults for `Lat0`, `Long0`, `K0`) -/
-def krovakInit (this : SR α) : SR α × Consts α :=
-  let this : SR α := { this with a := some (6377397.155 : α), es := (0.006674372230614 : α) }
-  let this : SR α := { this with e := sqrt this.es }
-  let this := if gNaN this.lat0 then { this with lat0 := some (0.863937979737193 : α) } else this
-  let this := if gNaN this.long0 then { this with long0 := some ((0.7417649320975901 : α) - 0.308341501185665) } else this
-  let this := if gNaN this.k0 then { this with k0 := some (0.9999 : α) } else this
-  let S90 : α := 2 * S45
-  let Fi0 := gnum this.lat0
-  let E2 := this.es
-  let this := { this with e := sqrt E2 }
-  let Alfa := sqrt (1 + (E2 * pow (cos Fi0) 4) / (1 - E2))
-  let Uq : α := 1.04216856380474
-  let U0 := asin (sin Fi0 / Alfa)
-  let G := pow ((1 + this.e * sin Fi0) / (1 - this.e * sin Fi0)) (Alfa * this.e / 2)
-  let K := tan (U0 / 2 + S45) / pow (tan (Fi0 / 2 + S45)) Alfa * G
-  let K1 := gnum this.k0
-  let N0 := aS this * sqrt (1 - E2) / (1 - E2 * pow (sin Fi0) 2)
-  let N := sin (S0 : α)
-  let Ro0 := K1 * N0 / tan (S0 : α)
-  let Ad := S90 - Uq
-  (this, { (Consts.nanC : Consts α) with alfa := Alfa, kk := K, n := N, ro0 := Ro0, ad := Ad })
+/-- `Krovak` (constructor body regenerated: `Gen.Go.Krovak_init`; writes `A`, `Es`, `E`, and defaults for
+`Lat0`, `Long0`, `K0`) -/
+def krovakInit (this : SR α) : Except String (SR α × Consts α) :=
+  match Krovak_init (this_K0 := this.k0) (this_Lat0 := this.lat0) (this_Long0 := this.long0) with
+  | .ok (Ad, Alfa, K, N, Ro0, A, E, Es, k0, lat0, long0) =>
+    .ok ({ this with a := some A, e := E, es := Es, k0 := k0, lat0 := lat0, long0 := long0 },
+         { (Consts.nanC : Consts α) with alfa := Alfa, kk := K, n := N, ro0 := Ro0, ad := Ad })
+  | .error e => .error e
 
 /-- forward closure of `Krovak` (regenerated) -/
 def krovakFwd (this : SR α) (c : Consts α) (lon lat : α) : Except String (α × α) :=
@@ -659,13 +582,13 @@ def transformers (sr : SR α) : Except String (SR α × Consts α × Kind) :=
   match kindOf sr.name with
   | none => .error "in proj.Proj.TransformFuncs, could not find transformer"
   | some .longlat => .ok (sr, Consts.nanC, .longlat)
-  | some .merc => let (s, c) := mercInit sr; .ok (s, c, .merc)
+  | some .merc => do let (s, c) ← mercInit sr; pure (s, c, .merc)
   | some .lcc => do let (s, c) ← lccInit sr; pure (s, c, .lcc)
   | some .aea => do let (s, c) ← aeaInit sr; pure (s, c, .aea)
   | some .eqdc => do let (s, c) ← eqdcInit sr; pure (s, c, .eqdc)
-  | some .tmerc => let (s, c) := tmercInit sr; .ok (s, c, .tmerc)
+  | some .tmerc => do let (s, c) ← tmercInit sr; pure (s, c, .tmerc)
   | some .utm => do let (s, c) ← utmInit sr; pure (s, c, .utm)
-  | some .krovak => let (s, c) := krovakInit sr; .ok (s, c, .krovak)
+  | some .krovak => do let (s, c) ← krovakInit sr; pure (s, c, .krovak)
 
 def fwd (k : Kind) (s : SR α) (c : Consts α) (lon lat : α) : Except String (α × α) :=
   match k with
